@@ -309,7 +309,7 @@ theorem normalizeAbsorb0_sum {K : Ktensor α} (h : NonnegK K) {shape : List Nat}
     by_cases hall : ∀ A ∈ rest, colSum A r = 1
     · exact Or.inl hall
     · right
-      push_neg at hall
+      simp only [not_forall] at hall
       obtain ⟨A, hA, hne⟩ := hall
       obtain ⟨m, hm, rfl⟩ := List.mem_iff_getElem.mp hA
       have hfm : factor K0 (m + 1) = rest[m] := by
